@@ -54,9 +54,10 @@ class AddFact:
 class HopSummary:
     def __init__(self, py, cls: str):
         self.py, self.cls = py, cls
-        if "add_node" not in py.classes[cls].methods:
+        owner = next((c for c in py.mro(cls) if c in py.classes and "add_node" in py.classes[c].methods and c != "FortranGraph"), None)
+        if owner is None:
             raise AnalysisError(f"{cls}.add_node not found")
-        self.fn = py.ifunc(f"{cls}.add_node")
+        self.fn = py.ifunc(f"{owner}.add_node")      # the class's own, or the one it inherits
         ps = [a.arg for a in self.fn.args.args]
         if len(ps) < 4:
             raise AnalysisError(f"{cls}.add_node: expected (self, hop_nodes, hop_edges, node, ...)")
